@@ -18,6 +18,7 @@ import Mahotas.Model.C17
 import Mahotas.Model.C18
 import Mahotas.Model.C19
 import Mahotas.Model.C20
+import Mahotas.Model.FilterIter
 open Mahotas
 
 def dispatch (a : Args) : String :=
@@ -42,6 +43,7 @@ def dispatch (a : Args) : String :=
   | "c18" => C18.handle a
   | "c19" => C19.handle a
   | "c20" => C20.handle a
+  | "f6" => filterIterHandle a
   | "ping" => "pong"
   | op => s!"error=unknown-op-{op}"
 
